@@ -34,6 +34,8 @@ class Gen:
         # `loop`: the loop context (default), or an ordinary name when the template is compiled with enable_loop=False
         # (unless <%page enable_loop="True"/> turns it on again)
         self.loop_mode = ["enabled", "disabled", "disabled-then-page-enables"][p.choose(3, "enable_loop")]
+        # quick tier (depth 0): the optional else / finally clauses are varied under the first two header styles only
+        self.clauses = depth > 0 or STYLES.index((self.indent, self.comment, self.continued)) < 2
         self.fors = []              # enumerate counters of the enclosing `for` statements, innermost last
         self.nested_for = {0: 1, 1: 2}.get(depth, 2)      # budget of directly nested loops (loop.parent chains)
 
@@ -104,7 +106,7 @@ class Gen:
         if kind == 2:       # while (optionally with an else clause)
             t1, p1 = self.body(d, i2)
             tmpl, py = self.ctl("while w(%d):" % k) + t1, [ind + "while w(%d):" % k] + p1
-            if not self.simple and p.choose(2, "while_else"):
+            if not self.simple and self.clauses and p.choose(2, "while_else"):
                 tmpl += self.ctl("else:") + "we%d\n" % k
                 py += [ind + "else:", i2 + "out.append('we%d')" % k]
             return tmpl + self.ctl("endwhile"), py
@@ -115,7 +117,7 @@ class Gen:
             if not self.simple and p.choose(2, "second_except_clause"):
                 tmpl += self.ctl("except KeyError:") + "y%d\n" % k
                 py += [ind + "except KeyError:", i2 + "out.append('y%d')" % k]
-            if not self.simple:
+            if not self.simple and self.clauses:
                 tail = p.choose(4, "try_tail")          # nothing / else / finally / else + finally
                 if tail in (1, 3):
                     tmpl += self.ctl("else:") + "te%d\n" % k
@@ -134,7 +136,8 @@ def _for_loop(self, d, ind, k=None, inner=False):
     k = k or self.fresh()
     i2 = ind + "    "
     it = ["r(%d)", "g(%d)", "s(%d)"][p.choose(3, "iterable")] % k
-    use = p.choose(3 if self.fors else 2, "uses_loop")          # nothing / loop.index / loop.parent.index as well
+    # nothing / loop.index / loop.index only inside a tag attribute / loop.parent.index as well
+    use = ["none", "index", "attr", "parent"][p.choose(4 if self.fors else 3, "uses_loop")]
     parent = self.fors[-1] if self.fors else None
     self.fors.append(k)
     try:
@@ -144,14 +147,18 @@ def _for_loop(self, d, ind, k=None, inner=False):
             t1, p1 = self.body(d, i2)
     finally:
         self.fors.pop()
-    extra = ["", "${loop.index}\n", "${loop.parent.index}.${loop.index}\n"][use]
-    pyx = [[], [i2 + "out.append(str(n%d))" % k], [i2 + "out.append(str(n%s) + '.' + str(n%d))" % (parent, k)]][use]
-    if self.loop_mode == "disabled" and use:
+    extra = {"none": "", "index": "${loop.index}\n", "parent": "${loop.parent.index}.${loop.index}\n",
+             "attr": '<%call expr="sh(loop.index)"></%call>\n'}[use]
+    pyx = {"none": [], "index": [i2 + "out.append(str(n%d))" % k], "parent": [i2 + "out.append(str(n%s) + '.' + str(n%d))" % (parent, k)],
+           "attr": [i2 + "out.append('L' + str(n%d))" % k]}[use]
+    if self.loop_mode == "disabled" and use == "attr":
+        extra, pyx = '<%call expr="sh(7) + loop"></%call>\n', [i2 + "out.append('L7ordinary-loop')"]
+    elif self.loop_mode == "disabled" and use != "none":
         # with enable_loop=False `loop` is whatever the context holds under that name
         extra, pyx = "${loop}\n", [i2 + "out.append('ordinary-loop')"]
     tmpl = self.ctl("for i%d in %s:" % (k, it)) + extra + t1
     py = [ind + "for n%d, i%d in enumerate(%s):" % (k, k, it)] + pyx + p1
-    if not self.simple and not inner and p.choose(2, "for_else"):
+    if not self.simple and self.clauses and not inner and p.choose(2, "for_else"):
         # the else clause runs after exhaustion (nothing in the grammar breaks out); `loop` there is the enclosing loop's again
         tmpl += self.ctl("else:") + "fe%d\n" % k
         py += [ind + "else:", i2 + "out.append('fe%d')" % k]
@@ -216,7 +223,7 @@ def helpers(p):
         del events[:]
         return ev
 
-    return dict(c=c, r=r, g=g, s=s_, w=w, boom=boom, cm=CM, e=e, Boom=Boom), reset, flags
+    return dict(c=c, r=r, g=g, s=s_, w=w, boom=boom, cm=CM, e=e, Boom=Boom, sh=lambda n: "L%d" % n), reset, flags
 
 
 def h_grammar(depth):
@@ -290,6 +297,7 @@ from mako.template import Template
 CASE = __CASE__
 print(CASE["template"]); print("--- equivalent python"); print(CASE["python"]); print("--- decisions", CASE["decisions"])
 class Boom(Exception): pass
+sh = lambda n: "L%d" % n
 D = CASE["decisions"]
 state = {}
 def flag(n): return D.get(n, False)
@@ -338,13 +346,13 @@ def run(check, tier):
     global TP
     TP = common.mako("template")
     check.assume(
-        "control-structure grammar (exploration): if/elif/else, for (over a list, a lazy generator whose production of each element is an observable event, or a string; body using nothing, loop.index, or loop.parent.index under directly nested loops), while, try/except, with - nested to depth "
+        "control-structure grammar (exploration): if/elif/else, for with optional else (over a list, a lazy generator whose production of each element is an observable event, or a string; body using nothing, loop.index, loop.index only inside a tag attribute (a call tag), or loop.parent.index under directly nested loops), while with optional else, try/except with optional second except clause / else / finally, with - header styles: indentation, trailing comment, backslash continuation, no blank after the keyword, string literal containing ':#' - nested to depth "
         "%d (nested compounds in their simple form), bodies empty / comment-only / text / expression / nested compound, %% lines indented by a solver-chosen run of blanks and carrying "
         "a solver-chosen trailing comment; conditions, iterable lengths and raising bodies are symbolic flags; the reference is the same "
         "program written in Python and executed natively" % {"quick": 0, "thorough": 1}[tier])
     name = "C03-grammar"
     driver.register(name, h_grammar({"quick": 0, "thorough": 1}[tier]), on_grammar)
-    st, acc = driver.explore(name, time_limit={"quick": 240, "thorough": 2400}[tier])
+    st, acc = driver.explore(name, time_limit={"quick": 600, "thorough": 2400}[tier])
     check.section("templates generated from the control-structure grammar vs native Python", st, acc,
                   dict(depth={"quick": 0, "thorough": 1}[tier], indents=INDENTS, comments=COMMENTS), tags_required=("asserted",))
     cands = sorted(acc.candidates, key=lambda c: len(c["input"]["template"]) if c.get("input") else 0)
